@@ -26,10 +26,19 @@ const (
 
 type wrapper struct {
 	Name      string
+	Group     string // signature name shared by the wrappers that exercise one production ("" = Name)
 	K         kind
 	Pre, Post string
 	Leaf      string   // "" = default leaf of the kind
 	Via       []string // lexK only: functions of the call-graph cycle this family drives
+}
+
+// sig is the name used in failure signatures.
+func (w wrapper) sig() string {
+	if w.Group != "" {
+		return w.Group
+	}
+	return w.Name
 }
 
 type clause struct {
@@ -45,6 +54,9 @@ const (
 
 func ew(name, pre, post string) wrapper { return wrapper{Name: name, K: exprK, Pre: pre, Post: post} }
 func sw(name, pre, post string) wrapper { return wrapper{Name: name, K: stmtK, Pre: pre, Post: post} }
+func swg(group, name, pre, post string) wrapper {
+	return wrapper{Name: name, Group: group, K: stmtK, Pre: pre, Post: post}
+}
 
 // exprWrappers: every expression production that can contain an expression.
 var exprWrappers = []wrapper{
@@ -172,16 +184,16 @@ var exprContexts = []clause{
 
 // stmtWrappers: every production that can contain a query.
 var stmtWrappers = []wrapper{
-	sw("derived", "SELECT * FROM (", ") d"),
-	sw("derived-as", "SELECT * FROM (", ") AS d"),
-	sw("derived-second", "SELECT * FROM t, (", ") d"),
-	sw("derived-lateral", "SELECT * FROM t, LATERAL (", ") d"),
-	sw("derived-join", "SELECT * FROM t JOIN (", ") d ON 1=1"),
-	sw("derived-left-join", "SELECT * FROM t LEFT JOIN (", ") d ON 1=1"),
-	sw("derived-cross-join", "SELECT * FROM t CROSS JOIN (", ") d"),
-	sw("derived-join-lateral", "SELECT * FROM t JOIN LATERAL (", ") d ON 1=1"),
-	sw("derived-join-second", "SELECT * FROM t JOIN u ON 1=1 JOIN (", ") d ON 1=1"),
-	sw("derived-both", "SELECT * FROM (SELECT 1) e JOIN (", ") d ON 1=1"),
+	swg("derived-table-from", "derived", "SELECT * FROM (", ") d"),
+	swg("derived-table-from", "derived-as", "SELECT * FROM (", ") AS d"),
+	swg("derived-table-from", "derived-second", "SELECT * FROM t, (", ") d"),
+	swg("derived-table-from", "derived-lateral", "SELECT * FROM t, LATERAL (", ") d"),
+	swg("derived-table-join", "derived-join", "SELECT * FROM t JOIN (", ") d ON 1=1"),
+	swg("derived-table-join", "derived-left-join", "SELECT * FROM t LEFT JOIN (", ") d ON 1=1"),
+	swg("derived-table-join", "derived-cross-join", "SELECT * FROM t CROSS JOIN (", ") d"),
+	swg("derived-table-join", "derived-join-lateral", "SELECT * FROM t JOIN LATERAL (", ") d ON 1=1"),
+	swg("derived-table-join", "derived-join-second", "SELECT * FROM t JOIN u ON 1=1 JOIN (", ") d ON 1=1"),
+	swg("derived-table-join", "derived-both", "SELECT * FROM (SELECT 1) e JOIN (", ") d ON 1=1"),
 	sw("cte", "WITH c AS (", ") SELECT * FROM c"),
 	sw("cte-second", "WITH b AS (SELECT 1), c AS (", ") SELECT 1"),
 	sw("cte-recursive", "WITH RECURSIVE c AS (", ") SELECT 1"),
@@ -271,13 +283,13 @@ var lexVia = []string{"tokenizer.nextToken", "tokenizer.readPunctuation"}
 // lexWrappers: runs of comments; each comment makes the tokenizer call
 // nextToken -> readPunctuation -> nextToken on the pinned tree.
 var lexWrappers = []wrapper{
-	{Name: "block-comments", K: lexK, Pre: "/*c*/ ", Leaf: "SELECT 1", Via: lexVia},
-	{Name: "block-comments-adjacent", K: lexK, Pre: "/**/", Leaf: "SELECT 1", Via: lexVia},
-	{Name: "line-comments", K: lexK, Pre: "--c\n", Leaf: "SELECT 1", Via: lexVia},
-	{Name: "mixed-comments", K: lexK, Pre: "/*c*/--c\n", Leaf: "SELECT 1", Via: lexVia},
-	{Name: "block-comments-inner", K: lexK, Pre: "/*c*/ ", Leaf: "\x00inner", Via: lexVia}, // SELECT <comments> 1
-	{Name: "line-comments-inner", K: lexK, Pre: "--c\n", Leaf: "\x00inner", Via: lexVia},
-	{Name: "block-comments-trailing", K: lexK, Post: " /*c*/", Leaf: "SELECT 1", Via: lexVia},
+	{Name: "block-comments", Group: "comment-run", K: lexK, Pre: "/*c*/ ", Leaf: "SELECT 1", Via: lexVia},
+	{Name: "block-comments-adjacent", Group: "comment-run", K: lexK, Pre: "/**/", Leaf: "SELECT 1", Via: lexVia},
+	{Name: "line-comments", Group: "comment-run", K: lexK, Pre: "--c\n", Leaf: "SELECT 1", Via: lexVia},
+	{Name: "mixed-comments", Group: "comment-run", K: lexK, Pre: "/*c*/--c\n", Leaf: "SELECT 1", Via: lexVia},
+	{Name: "block-comments-inner", Group: "comment-run", K: lexK, Pre: "/*c*/ ", Leaf: "\x00inner", Via: lexVia}, // SELECT <comments> 1
+	{Name: "line-comments-inner", Group: "comment-run", K: lexK, Pre: "--c\n", Leaf: "\x00inner", Via: lexVia},
+	{Name: "block-comments-trailing", Group: "comment-run", K: lexK, Post: " /*c*/", Leaf: "SELECT 1", Via: lexVia},
 }
 
 type family struct {
